@@ -17,6 +17,7 @@ import (
 	"net/url"
 	"strings"
 	"sync"
+	"sync/atomic"
 	"time"
 
 	"github.com/bitcoin-sv/block-headers-service/config"
@@ -223,6 +224,51 @@ func (e *env) wsConnectOnce(tok string) wsResult {
 	res.Errors = append([]string(nil), errs...)
 	mu.Unlock()
 	return res
+}
+
+// wsConnectMany opens n websocket connections with the same token and keeps all of them open until every one has
+// reported connected / disconnected (or the watchdog fired).
+func (e *env) wsConnectMany(tok string, n int) []wsResult {
+	u := "ws" + strings.TrimPrefix(e.srv.URL, "http") + wsPath
+	out := make([]wsResult, n)
+	var clients []*centrifuge.Client
+	var wg sync.WaitGroup
+	for i := 0; i < n; i++ {
+		i := i
+		c := centrifuge.NewJsonClient(u, centrifuge.Config{Token: tok, Proxy: func(*http.Request) (*url.URL, error) { return nil, nil }})
+		clients = append(clients, c)
+		ch := make(chan wsResult, 16)
+		c.OnConnected(func(centrifuge.ConnectedEvent) {
+			select {
+			case ch <- wsResult{Kind: "connected"}:
+			default:
+			}
+		})
+		c.OnDisconnected(func(d centrifuge.DisconnectedEvent) {
+			select {
+			case ch <- wsResult{Kind: "disconnected", Code: d.Code, Reason: d.Reason}:
+			default:
+			}
+		})
+		wg.Add(1)
+		go func() {
+			defer wg.Done()
+			if err := c.Connect(); err != nil {
+				out[i] = wsResult{Kind: "dial-error", Errors: []string{err.Error()}}
+				return
+			}
+			select {
+			case out[i] = <-ch:
+			case <-time.After(watchdog):
+				out[i] = wsResult{Kind: "timeout"}
+			}
+		}()
+	}
+	wg.Wait()
+	for _, c := range clients {
+		c.Close()
+	}
+	return out
 }
 
 // wsConnect retries inconclusive outcomes (timeout / dial error); ok=false if still undecided.
@@ -612,7 +658,7 @@ var opTable = []struct {
 	w    int
 }{
 	{"create", 24}, {"revoke-existing", 12}, {"revoke-unknown", 6}, {"revoke-admin", 3}, {"revoke-revoked", 5},
-	{"http-auth", 12}, {"ws-auth", 10}, {"restart", 4}, {"create-as-user", 2}, {"revoke-as-user", 3}, {"revoke-commit-fails", 3}, {"create-insert-fails", 2}, {"revoke-delete-fails", 2}, {"create-burst", 3},
+	{"http-auth", 12}, {"ws-auth", 10}, {"restart", 4}, {"create-as-user", 2}, {"revoke-as-user", 3}, {"revoke-commit-fails", 3}, {"create-insert-fails", 2}, {"revoke-delete-fails", 2}, {"create-burst", 3}, {"ws-many", 2}, {"revoke-during-lookups", 3},
 }
 
 // lockEvery: one sequence in lockEvery additionally revokes one token while a reader holds a lock (a busy timeout each)
@@ -765,6 +811,73 @@ func (s *seq) run(rng *rand.Rand, n int) {
 			_, _ = e.st.DB.Exec(`DELETE FROM verif_tokref`)
 			s.r.Count("revokes_with_refused_commit", 1)
 			s.r.Count(fmt.Sprintf("revokes_with_refused_commit_status_%dxx", code/100), 1)
+		case "ws-many":
+			// several clients share one token: each of them connects
+			t, ti, ok := m.pick(rng, true)
+			if !ok {
+				continue
+			}
+			s.op(kind, "6 simultaneous websocket connections with valid token #%d", ti)
+			s.subj = t
+			undecided := false
+			for k, res := range e.wsConnectMany(t, 6) {
+				switch res.Kind {
+				case "connected":
+				case "disconnected":
+					s.violate(fmt.Sprintf("ws-valid-token-refused|simultaneous-connections|%s", res), fmt.Sprintf("connection %d of 6 simultaneous websocket connections with the valid token %s ended %s; expected connected", k+1, s.name(t), res), nil)
+					return
+				default:
+					undecided = true
+				}
+			}
+			if undecided {
+				s.r.Inconclusive(s.caseID, "simultaneous websocket connections: a handshake did not finish")
+			} else {
+				s.r.Count("ws_simultaneous_connection_sets", 1)
+			}
+		case "revoke-during-lookups":
+			// clients keep authenticating with a token while it is revoked: a request that STARTS after the revocation was
+			// acknowledged is refused
+			t, ti, ok := m.pick(rng, true)
+			if !ok {
+				continue
+			}
+			s.op(kind, "revoke #%d while 4 clients keep authenticating with it", ti)
+			s.subj = t
+			var stop atomic.Bool
+			var revoked atomic.Int64 // monotonic instant (ns) at which the revocation was acknowledged; 0 = not yet
+			var late atomic.Int64    // requests started after that instant and answered 200
+			var total atomic.Int64
+			var wg sync.WaitGroup
+			base := time.Now()
+			for g := 0; g < 4; g++ {
+				wg.Add(1)
+				go func() {
+					defer wg.Done()
+					for !stop.Load() {
+						start := time.Since(base).Nanoseconds()
+						after := revoked.Load() != 0 && start > revoked.Load()
+						w := e.st.HTTP(http.MethodGet, accessPath, nil, bearer(t))
+						total.Add(1)
+						if after && w.Code == 200 {
+							late.Add(1)
+						}
+					}
+				}()
+			}
+			time.Sleep(time.Duration(200+rng.Intn(800)) * time.Microsecond)
+			code := s.revoke(t, rig.AdminToken)
+			if code >= 200 && code <= 299 {
+				revoked.Store(time.Since(base).Nanoseconds() + 1)
+			}
+			time.Sleep(2 * time.Millisecond)
+			stop.Store(true)
+			wg.Wait()
+			s.r.Count("lookups_concurrent_with_a_revocation", total.Load())
+			if late.Load() > 0 {
+				s.violate("revoked-token-accepted|request-started-after-the-acknowledged-revocation", fmt.Sprintf("%d requests that started after the revocation of token %s had been acknowledged were answered 200", late.Load(), s.name(t)), nil)
+				return
+			}
 		case "create-burst":
 			// several clients ask for a token at the same moment: every answer is a different, working token
 			s.op(kind, "create 12 tokens from 6 clients at once")
@@ -977,7 +1090,7 @@ func (s *seq) run(rng *rand.Rand, n int) {
 }
 
 func body(r *ev.Run) {
-	r.Rule("seeded operation sequences of length 20..200 over {create (admin), 12 creations from 6 concurrent clients, create with a user token, revoke existing / already revoked / never-issued (random, near-miss and SQL-wildcard values) / the admin token itself, revoke with a user token (incl. self-revocation), revoke while SQLite refuses the COMMIT of the deletion (deferred foreign-key reference), aborts the DELETE statement (trigger) or while a second connection holds a read lock or the exclusive lock, create while SQLite aborts the INSERT (trigger), authenticate over TCP, websocket connect with valid / revoked / never-issued / empty / admin token, restart}; the set model follows the API's own answers (2xx create = issued, 2xx revoke = revoked). After EVERY operation every token ever issued, the admin token and the never-issued targets are authenticated on GET /api/v1/access (status, own value, isAdmin) and a rotating sample on GET /api/v1/chain/tip/longest; websocket handshakes are sampled. evaluations = sequences; distinct = distinct operation-kind strings; non-trivial = sequences with at least one create, one accepted revocation of an existing token and one restart or websocket probe.")
+	r.Rule("seeded operation sequences of length 20..200 over {create (admin), 12 creations from 6 concurrent clients, 6 simultaneous websocket connections with one token, a revocation while 4 clients keep authenticating with the token, create with a user token, revoke existing / already revoked / never-issued (random, near-miss and SQL-wildcard values) / the admin token itself, revoke with a user token (incl. self-revocation), revoke while SQLite refuses the COMMIT of the deletion (deferred foreign-key reference), aborts the DELETE statement (trigger) or while a second connection holds a read lock or the exclusive lock, create while SQLite aborts the INSERT (trigger), authenticate over TCP, websocket connect with valid / revoked / never-issued / empty / admin token, restart}; the set model follows the API's own answers (2xx create = issued, 2xx revoke = revoked). After EVERY operation every token ever issued, the admin token and the never-issued targets are authenticated on GET /api/v1/access (status, own value, isAdmin) and a rotating sample on GET /api/v1/chain/tip/longest; websocket handshakes are sampled. evaluations = sequences; distinct = distinct operation-kind strings; non-trivial = sequences with at least one create, one accepted revocation of an existing token and one restart or websocket probe.")
 	r.Assume(
 		"authentication is enabled (use_auth=true); SQLite token repository only",
 		"restart = stop listeners, close the handle, database.Init on the same file, new services/engine/websocket node (no process kill: that is C05's business)",
